@@ -8,7 +8,7 @@
    repeated-run search, not by proof. *)
 From Coq Require Import List NArith Bool Permutation.
 From Verif Require Import Base.Res Model.Analyzer Proofs.AnalyzerProofs Base.Text Model.Scope Proofs.ScopeProofs Gen.GenRules Model.Rules Proofs.RulesProofs.
-From Verif Require Model.ExprKind Proofs.ExprKindProofs.
+From Verif Require Model.ExprKind Proofs.ExprKindProofs Model.DataDecl Proofs.DataDeclProofs Proofs.DataDeclComplete.
 Import ListNotations.
 
 Theorem C06_verdict_order_independent :
@@ -94,3 +94,10 @@ Proof. exact ExprKindProofs.resolve_by_unit. Qed.
 Theorem C06_expression_resolution_order : forall us us', Permutation us us' ->
   (ExprKind.resolve_expr_kinds (flat_map ExprKind.flat_unit us) = None <-> ExprKind.resolve_expr_kinds (flat_map ExprKind.flat_unit us') = None).
 Proof. exact ExprKindProofs.verdict_perm. Qed.
+
+(* aliases of data types: two well-formed orders (unique names, bases first) of the same declarations give every alias the
+   same kind -- whichever of them the declaration sort produces *)
+Theorem C06_alias_resolution_order : forall fs fs' s s' n, DataDeclComplete.wf fs -> DataDeclComplete.wf fs' ->
+  (forall f, In f fs <-> In f fs') -> DataDecl.dwalk DataDecl.dinit0 fs = inl s -> DataDecl.dwalk DataDecl.dinit0 fs' = inl s' ->
+  DataDecl.alias_kind (DataDecl.resolved s) n = DataDecl.alias_kind (DataDecl.resolved s') n.
+Proof. exact DataDeclComplete.alias_kind_order. Qed.
